@@ -21,9 +21,9 @@ MANIFEST = {
 }
 
 FAMILIES = ["add_vertex", "remove_vertex", "add_to_universe", "remove_from_universe", "vertex_ctor", "universe_ctor"]
-BOUNDS = {"quick": {"vertices": 2, "universes": 2, "pre_state_list_len": 2, "bmc_depth": 2, "ctor_arg_len": "3 (Vertex) / 2 (Universe, BMC)"},
+BOUNDS = {"quick": {"vertices": 2, "universes": 2, "pre_state_list_len": 2, "bmc_depth": "2 (all families), 3 (membership calls)", "ctor_arg_len": "3 (Vertex) / 2 (Universe, BMC)"},
           "thorough": {"vertices": 2, "universes": 2, "pre_state_list_len": 3, "bmc_depth": 3, "ctor_arg_len": 3}}
-TIME_BUDGET = {"quick": 400, "thorough": 3000}
+TIME_BUDGET = {"quick": 400, "thorough": 1200}
 STUBS = ["uuid.uuid4 -> fresh distinct integer"]
 ASSUMPTIONS = ["pool bound: at most 2 plain vertices and 2 universes exist before the step (small-scope assumption)",
                "a counterexample to induction is reported only when its pre-state is reached through the public API"]
@@ -34,6 +34,8 @@ def configs(tier):
     K = 2 if tier == "quick" else 3
     out = [{"mode": "ind", "family": f, "K": K, "alen": 3 if (tier != "quick" or f == "vertex_ctor") else 2} for f in FAMILIES]
     out.append({"mode": "bmc", "depth": 2, "alen": 2})
+    # depth 3 over the four membership calls only (add - remove - add again, from either side)
+    out.append({"mode": "bmc", "depth": 3, "alen": 1, "families": FAMILIES[:4]})
     if tier != "quick":
         out.append({"mode": "bmc", "depth": 3, "alen": 1})
     return out
@@ -160,8 +162,9 @@ def scenario(B, p):
         B.prove("raises exactly when a non-member is removed (" + p["family"] + ")", out["raise_ok"])
         B.prove("every membership list equals the reference step's (" + p["family"] + ")", out["lists_ok"])
         return
+    fams = p.get("families", FAMILIES)
     for step in range(p["depth"]):
-        fam = FAMILIES[B.choice(f"s{step}.op", len(FAMILIES))]
+        fam = fams[B.choice(f"s{step}.op", len(fams))]
         out = do_step(B, fam, objs, unis, f"s{step}.", p["alen"])
         new = B.adopt(out["r"], f"new{step}")
         objs = objs + new
